@@ -48,8 +48,19 @@ for d in dirs:
     if meta.get("history"):
         lines.append(f"| | _history_: {meta['history']} | | | | |")
 lines += ["", f"{caught} of {len(dirs)} caught with a concrete failing input."]
+summary = VERIF / "seeded" / "SUMMARY.md"
 if not only:
-    (VERIF / "seeded" / "SUMMARY.md").write_text("\n".join(lines) + "\n")
+    summary.write_text("\n".join(lines) + "\n")
+elif summary.exists():
+    # a filtered run refreshes the rows of the seeds it swept in the table of record and recomputes the count
+    new = {l.split("|")[1].strip(): l for l in lines if l.startswith("| C")}
+    old = summary.read_text().split("\n")
+    merged = [new.pop(l.split("|")[1].strip(), l) if l.startswith("| C") else l for l in old]
+    rows = [l for l in merged if l.startswith("| C")]
+    n_caught = sum(1 for l in rows if "| caught (failing input)" in l)
+    merged = [f"{n_caught} of {len(rows)} caught with a concrete failing input." if l.endswith("caught with a concrete failing input.") else l
+              for l in merged]
+    summary.write_text("\n".join(merged))
 for d in dirs:
     c = (results[d.name].get("checks") or {}).get(json.loads((d / "meta.json").read_text()).get("check_with", [d.name.split("-")[0]])[0], {})
     if c.get("kind") != "failing-input":
